@@ -307,9 +307,10 @@ def rule_norms(rep, pdb):
                 ok = ok and g and src[1] != src[2]
             else:
                 ok = False
-            tail = strip(fn["body"].get("expr")) if fn["body"].get("expr") else None
-            tt = ctx.term(tail) if tail else None
-            root = tt is not None and tt[0] == "call" and str(tt[1]).endswith("powf") and tt[2] == s.target and tt[3] == ("op", "/", num(1), P(1))
+            from .common import return_paths as _rp
+            # the value returned on the general path (the tail, or the non-special branch of an if/else tail)
+            root = any(tt is not None and tt[0] == "call" and str(tt[1]).endswith("powf") and tt[2] == s.target and tt[3] == ("op", "/", num(1), P(1))
+                       for _fs, tt, _n in _rp(ctx))
             ok = ok and root
             det += "; outer root powf(sum, 1/p)=%s" % root
         rep.add("norm-orientation/norm_p", "norm_p = powf(sum over all entries of powf(|a_ij|, p), 1/p)", ok, fn["body"], det, where=loc(fn["body"]))
